@@ -142,6 +142,8 @@ def run(res: Results, idx: Index, tier: str) -> None:
     res.control("R-C19a", "positional, renamed-keyword and keyword-only forms are reported on a synthetic pair", {("b", "positional#1"), ("b", "keyword"), ("c", "keyword-only")} <= forms, str(sorted(forms)))
     rule_e(res, idx)
     rule_f(res, idx, tier)
+    rule_g(res, idx)
+    rule_h(res, idx)
 
 
 def rule_f(res: Results, idx: Index, tier: str) -> None:
@@ -398,3 +400,142 @@ def rule_e(res: Results, idx: Index) -> None:
                 else:
                     res.unresolved("R-C19e", site, key, "filtered re-bind; the primitives using this rule were not resolved", fi.qualname)
     res.analysed["rebind_sites_in_rules"] = n
+
+
+# ---------------------------------------------------------------------------------------------- R-C19g / R-C19h
+# Accumulators that collect the contribution of several arguments (confirmed by reading; candidates came from "initialised
+# to None, then assigned in two or more sibling conditional blocks"): (file, function, variable, what it accumulates)
+ACCUMULATORS = [
+    ("jax2onnx/plugins/jax/nn/dot_product_attention.py", "DotProductAttentionPlugin.lower", "mask_bool",
+     "the attention mask: local_window_size, mask and the sequence lengths each contribute a factor"),
+    ("jax2onnx/plugins/jax/nn/dot_product_attention.py", "DotProductAttentionPlugin.lower", "length_mask_bool",
+     "the length mask: query_seq_lengths and key_value_seq_lengths each contribute a factor"),
+]
+
+
+def _assigns_of(n: ast.AST, v: str) -> List[ast.AST]:
+    out = []
+    for x in ast.walk(n):
+        if isinstance(x, (ast.Assign, ast.AnnAssign)) and x.value is not None:
+            ts = x.targets if isinstance(x, ast.Assign) else [x.target]
+            if any(isinstance(t, ast.Name) and t.id == v for t in ts):
+                out.append(x)
+    return out
+
+
+def rule_g(res: Results, idx: Index) -> None:
+    """An accumulator that several arguments contribute to (initialised to None, extended in sibling conditional
+    blocks) must never be overwritten: every definition that can follow an earlier one either reads the accumulator or
+    is guarded by `<acc> is None`.  Otherwise the argument behind the earlier block is silently ignored whenever the
+    argument behind the later block is given too."""
+    from ..guards import path_conditions
+    res.rule("R-C19g", "argument contributions collected in an accumulator are combined, never overwritten", floor=2)
+    for rel, fq, var, what in ACCUMULATORS:
+        f = idx.find_func(rel, fq)
+        key = f"{rel}::{fq}::accumulator::{var}"
+        if f is None:
+            raise AnalysisError(f"accumulator anchor missing: {rel}::{fq}")
+        body = f.node.body  # type: ignore[attr-defined]
+        init = next((i for i, st in enumerate(body) if isinstance(st, (ast.Assign, ast.AnnAssign)) and st.value is not None and isinstance(st.value, ast.Constant) and st.value.value is None
+                     and any(isinstance(t, ast.Name) and t.id == var for t in (st.targets if isinstance(st, ast.Assign) else [st.target]))), None)
+        if init is None:
+            # the accumulator may live one block deeper
+            holder = next((blk for blk in ast.walk(f.node) for fld in ("body", "orelse") if isinstance(getattr(blk, fld, None), list) and blk is not f.node
+                           and any(isinstance(st, (ast.Assign, ast.AnnAssign)) and st.value is not None and isinstance(st.value, ast.Constant) and st.value.value is None
+                                   and any(isinstance(t, ast.Name) and t.id == var for t in (st.targets if isinstance(st, ast.Assign) else [st.target])) for st in getattr(blk, fld))), None)
+            if holder is None:
+                res.unresolved("R-C19g", f.site, key, f"`{var}` is no longer initialised to None in this function", f.qualname)
+                continue
+            body = next(getattr(holder, fld) for fld in ("body", "orelse") if isinstance(getattr(holder, fld, None), list) and any(_assigns_of(st, var) for st in getattr(holder, fld)))
+            init = next(i for i, st in enumerate(body) if _assigns_of(st, var) and isinstance(st, (ast.Assign, ast.AnnAssign)))
+        blocks = [st for st in body[init + 1:] if _assigns_of(st, var)]
+        bad = []
+        n_defs = 0
+        for k, st in enumerate(blocks):
+            for a in _assigns_of(st, var):
+                n_defs += 1
+                if k == 0:
+                    # within the first block, later definitions may only follow earlier ones if they read them
+                    earlier = [b for b in _assigns_of(st, var) if b.lineno < a.lineno]
+                    if not earlier:
+                        continue
+                if var in names_in(a.value):  # type: ignore[attr-defined]
+                    continue
+                conds = path_conditions(a)
+
+                def is_none_atom(c: ast.AST, want: bool) -> bool:
+                    return isinstance(c, ast.Compare) and len(c.ops) == 1 and isinstance(c.left, ast.Name) and c.left.id == var and isinstance(c.comparators[0], ast.Constant) \
+                        and c.comparators[0].value is None and ((isinstance(c.ops[0], ast.Is) and want) or (isinstance(c.ops[0], ast.IsNot) and not want))
+                if any(is_none_atom(c, w) for c, w in conds):
+                    continue
+                # mutually exclusive with every earlier definition (other branch of the same if)?
+                prior = [b for s2 in blocks[: k + 1] for b in _assigns_of(s2, var) if b.lineno < a.lineno]
+                if prior and all(_exclusive(b, a) for b in prior):
+                    continue
+                bad.append(a)
+        if bad:
+            a = bad[0]
+            res.violation("R-C19g", f"{rel}:{a.lineno}", key, f"`{src(a, 60)}` replaces {what} built so far instead of combining with it: the arguments handled by the earlier blocks are silently ignored when this one is given too", f.qualname)
+        elif n_defs < 2:
+            res.unresolved("R-C19g", f.site, key, f"fewer than two definitions of `{var}` found", f.qualname)
+        else:
+            res.ok("R-C19g", f.site, key, f"{n_defs} definitions of `{var}`; each later one reads the accumulator or is guarded by `{var} is None`", f.qualname)
+
+
+def _exclusive(a: ast.AST, b: ast.AST) -> bool:
+    """a and b sit in different branches of one if statement"""
+    from ..index import parents
+    pa = list(parents(a))
+    for anc in parents(b):
+        if isinstance(anc, ast.If) and anc in pa:
+            def side(n: ast.AST) -> Optional[str]:
+                for fld in ("body", "orelse"):
+                    for st in getattr(anc, fld):
+                        if n is st or any(x is n for x in ast.walk(st)):
+                            return fld
+                return None
+            sa, sb = side(a), side(b)
+            return sa is not None and sb is not None and sa != sb
+    return False
+
+
+def rule_h(res: Results, idx: Index) -> None:
+    """Within one plugin module a role name (`k_len`, `batch_size`, `num_heads` …) read from an operand's shape has to
+    come from the same axis everywhere: the substitute that fills in an omitted argument and the lowering that consumes
+    it must agree on the layout.  Two reads `NAME = OP.shape[i]` / `NAME = OP_shape[j]` with i != j in different
+    functions (or in the same function outside an if/else alternative) contradict each other: one of them is wrong."""
+    import re as _re
+    res.rule("R-C19h", "a role name is read from the same axis of the same operand throughout a plugin module", floor=3)
+    n = 0
+    for m in idx.product_modules():
+        if ".plugins." not in m.name:
+            continue
+        roles: Dict[Tuple[str, str], Dict[int, List[ast.Assign]]] = {}
+        for node in ast.walk(m.tree):
+            if isinstance(node, ast.Assign) and len(node.targets) == 1 and isinstance(node.targets[0], ast.Name) and isinstance(node.value, ast.Subscript) \
+                    and isinstance(node.value.slice, ast.Constant) and isinstance(node.value.slice.value, int):
+                base = dotted(node.value.value) or ""
+                if not (base.endswith(".shape") or base.endswith("_shape")):
+                    continue
+                op = _re.sub(r"(\.shape|_shape)$", "", base)
+                roles.setdefault((node.targets[0].id, op), {}).setdefault(node.value.slice.value, []).append(node)
+        for (nm, op), by in sorted(roles.items()):
+            if sum(len(v) for v in by.values()) < 2:
+                continue
+            n += 1
+            key = f"{m.rel}::shape-role::{nm}::{op}"
+            idxs = sorted(by)
+            if len(idxs) == 1:
+                res.ok("R-C19h", f"{m.rel}:{by[idxs[0]][0].lineno}", key, f"`{nm}` is axis {idxs[0]} of `{op}` at {sum(len(v) for v in by.values())} sites", "<module>")
+                continue
+            a, b = by[idxs[0]][0], by[idxs[1]][0]
+            fa, fb = m.func_containing(a), m.func_containing(b)
+            if (idxs[0] < 0) != (idxs[1] < 0):
+                res.unresolved("R-C19h", f"{m.rel}:{b.lineno}", key, f"`{nm}` is read with index {idxs[0]} and with index {idxs[1]} of `{op}`: indices of different sign name the same axis for some rank only", "<module>")
+                continue
+            if fa is fb and _exclusive(a, b):
+                res.ok("R-C19h", f"{m.rel}:{a.lineno}", key, f"`{nm}` is axis {idxs[0]} or {idxs[1]} of `{op}` in alternative branches of one if statement", "<module>")
+                continue
+            res.violation("R-C19h", f"{m.rel}:{b.lineno}", key, f"`{nm}` is read as `{src(a.value, 40)}` at line {a.lineno} ({fa.qualname if fa else '<module>'}) and as `{src(b.value, 40)}` at line {b.lineno} ({fb.qualname if fb else '<module>'}): "
+                          "the two places disagree on the operand's layout, so a value filled in for an omitted argument means something else where it is consumed", "<module>")
+    res.analysed["shape_role_names"] = n
